@@ -24,8 +24,11 @@ LEVEL = 'model_checking'
 ASSUMPTIONS = [
     'reference layout = checks/layouts.py (written from the CAMx user guide, '
     'no library code)',
-    'writers: only the gridded average/emissions (uamiv) writer (the met '
-    'writers fail under numpy 2.5 before writing anything); its data loop is '
+    'writers: the gridded average/emissions (uamiv) writer and the one3d / '
+    'temperature / height_pressure writers (checks/metwrite.py: real writer '
+    'function on a byte sink, symbolic time flags, concrete payload); wind, '
+    'cloud_rain, lateral_boundary, landuse writers are not encoded. uamiv: '
+    'its data loop is '
     'executed on a sink that records the byte count and integer value of '
     'every tofile call, with an unbounded cell count and the source dtype '
     'enumerated (f4, f8; i4, i2 thorough); the byte-level decode of '
@@ -509,4 +512,11 @@ def obligations(tier):
         o.name = 'reader-record-' + o.name
         obs.append(o)
     obs += metmap.full_obligations(tier)
+    # met writers -> reference layout (the same obligations C08 uses)
+    from . import metwrite
+    for o in metwrite.obligations(tier):
+        if tier == 'quick' and o.year != 2004:
+            continue
+        o.name = 'writer-' + o.name
+        obs.append(o)
     return obs
